@@ -9,7 +9,7 @@ EXPLANATION = ('Proof by local obligations on FinalizerObserver / FinalizerSubsc
                'FnOnce() only and lives in an Option inside a shared cell created once per actual_subscribe (at most once by typing); '
                'N2+N4 error(), complete() and unsubscribe() each deliver the downstream terminal / inner unsubscribe first and then take() '
                'and call the callback on every path on which it is still there; N3 no other method takes or calls it; N5 the take() is made '
-               'through the cell guard, so racing triggers cannot both obtain it. All obligations must be discharged.')
+               'through the cell guard, so racing triggers cannot both obtain it; N6 the callback cell is the innermost lock: no method of the finalize observer/subscription calls the inner subscription or the downstream observer while holding its guard (a terminating thread takes the cell last, under the source-side locks: the opposite order blocks both and the callback never runs). All obligations must be discharged.')
 ASSUMPTIONS = ['RefCell/Mutex give exclusive access to the Option<F> slot; a value moved out by Option::take cannot be obtained twice']
 TECHNIQUE = 'static analysis: type-bound (SIG) obligations and regular-language rules over MIR event graphs'
 
@@ -153,6 +153,31 @@ def _check_own(cx):
                 res.append(Finding(ID, 'N3', label, False, 'the callback is taken or called outside the three triggers: ' + bad[0], fn['span'], bad[1]))
             else:
                 res.append(Finding(ID, 'N3', label, True, 'does not touch the callback', fn['span']))
+        # N6: the callback cell is the innermost lock: while its guard is held nothing is asked of the inner subscription or the
+        # downstream observer. The terminating thread comes with the source's locks held and takes the callback cell last; a thread
+        # going the other way round (cell first, then the source) blocks it for ever and the callback of a terminated subscription never runs
+        from ..core import lock_scopes, node_desc
+        for meth in triggers + others:
+            fn = F.impl_fn(im, meth)
+            if fn is None:
+                continue
+            g = cx.graph(fn['key'])
+            held = lock_scopes(g)
+            badn = []
+            for n in g.nodes:
+                if n['kind'] not in ('call', 'enter') or not n['args'] or n['ctx']:
+                    continue
+                if not any(h[1] == func_cls for h in held[n['id']]):
+                    continue
+                rc_ = recv_class(n['args'][0])
+                if rc_ == func_cls or not rc_.startswith('self.') or n['name'] in FN_CALLS:
+                    continue
+                badn.append(n)
+            res.append(Finding(ID, 'N6', cx.label(fn), not badn,
+                               'nothing is asked of the source or the downstream while the callback cell is locked' if not badn else
+                               'calls %s on %s while holding the guard of the callback cell: a thread delivering complete()/error() holds the source-side locks and waits for this cell, this thread holds the cell and waits for them — neither proceeds and the callback of the terminated subscription never runs' % (
+                                   badn[0]['name'].rsplit('::', 1)[-1], recv_class(badn[0]['args'][0])),
+                               g.loc(badn[0]) if badn else fn['span'], [node_desc(g, x) for x in badn]))
     # operator side: one cell per subscription, created from self.func
     for im in F.impls_of('observable::Observable'):
         tag = roles.impl_tag(cx, im)
